@@ -56,7 +56,7 @@ void MASA::remove_line(std::string& str)
   while ( position != int(std::string::npos) )
     {
       str.replace( position, 1, "" );
-      position = str.find( "-", position + 1 );
+      position = str.find( "-", position );
     }
 }
 
@@ -66,7 +66,7 @@ void MASA::remove_whitespace(std::string& str)
   while ( position != int(std::string::npos) )
     {
       str.replace( position, 1, "" );
-      position = str.find( " ", position + 1 );
+      position = str.find( " ", position );
     }
 }
 
